@@ -31,7 +31,6 @@ from __future__ import annotations
 
 import dataclasses
 import enum
-import itertools
 import struct
 import uuid as _uuid
 from typing import Any, Dict, List, Optional, Sequence, Tuple
@@ -147,7 +146,7 @@ class Probe:
 
 # ------------------------------------------------------------------------------------------------ norm
 def norm(x: Any) -> Any:
-    if isinstance(x, lazy_object_proxy.Proxy):
+    while isinstance(x, lazy_object_proxy.Proxy):
         x = x.__wrapped__
     if x is None:
         return None
@@ -876,6 +875,8 @@ def probes(desc) -> List[Probe]:
         names = [e[0] for e in BITFIELD_SCHEMAS[d[2]]]
         bits = [e[1] for e in BITFIELD_SCHEMAS[d[2]]]
         for i, n in enumerate(names):
+            if len(BITFIELD_SCHEMAS[d[2]][i]) == 3 and BITFIELD_SCHEMAS[d[2]][i][2] == "bool":
+                continue  # BoolAdapter coerces any value to 0/1: nothing is out of range
             v = {m: 0 for m in names}
             v[n] = (1 << bits[i]) if d[3] else (1 << sum(bits[:i + 1]))
             out.append(Probe(v, f"overflow:{n}"))
@@ -893,3 +894,135 @@ def probes(desc) -> List[Probe]:
                 out.append(Probe(v.rich, "payload-length-mismatch"))
                 break
     return out
+
+
+# ------------------------------------------------------------------------------------------------ enumeration
+def P(name):
+    return ("prim", name)
+
+
+U8 = P("U8")
+CSTR = ("cstr", (0,), True)
+LEAVES: List[tuple] = (
+    [P(n) for n in PRIMS]
+    + [("bytearray", "U8"), ("bytearray", "U16"), ("bytearray", "S8"), ("bytesfixed", 0), ("bytesfixed", 3), ("bytesgreedy",),
+       ("bytesterm", (0,), True, True), ("bytesterm", (32, 10), True, True), ("bytesterm", (0,), False, True), ("bytesterm", (0,), True, False),
+       ("str", "U8", True), ("str", "U8", False), ("str", "U16", True), ("strfixed", 4),
+       CSTR, ("cstr", (32, 9, 13, 10), True), ("cstr", (10,), False),
+       ("uuid",), ("vector3",), ("vector4",), ("vector3d",),
+       ("qvec", "Vector3U16", -1.0, 1.0), ("qvec", "Vector2U16", 0.0, 1.0), ("qvec", "Vector4U16", -64.0, 64.0),
+       ("qvec", "Vector3U8", -1.0, 1.0), ("qvec", "Vector4U8", 0.0, 1.0),
+       ("fpvec", 8, 7, True), ("fpvec", 8, 8, False), ("packedquat", "vector3"), ("packedquat", "vector4"), ("null",),
+       ("qfloat", "U8", 0.0, 1.0), ("qfloat", "U8", -1.0, 1.0), ("qfloat", "S8", -1.0, 1.0), ("qfloat", "U16", -2.0, 1.0),
+       ("qfloat", "S16", -1.0, 1.0), ("qfloat", "U16", -64.0, 64.0),
+       ("fixedpoint", "U16", 8, 8, False), ("fixedpoint", "U16", 8, 7, True), ("fixedpoint", "U8", 4, 4, False),
+       ("intenum", "U8", False), ("intenum", "U8", True), ("intenum", "U16", False), ("intenum", "S8", False),
+       ("intflag", "U8"), ("intflag", "S8"), ("intflag", "U16"),
+       ("bitfield", "U8", "full8", True), ("bitfield", "U8", "full8", False), ("bitfield", "U16", "part16", True),
+       ("bitfield", "U8", "adapt8", True), ("bfdc", "U8"), ("booladapter", "U8"), ("expr", "U8"),
+       ("strenum", CSTR), ("strenum", ("str", "U8", True))]
+)
+BASIS: List[tuple] = [U8, P("S16"), ("bytearray", "U8"), CSTR, ("bytesgreedy",), ("uuid",), ("intenum", "U8", False),
+                      ("bytesterm", (0,), False, True)]
+BASIS2: List[tuple] = [U8, ("bytearray", "U8"), CSTR, ("bytesgreedy",)]
+KEYS: List[tuple] = [U8, CSTR, ("uuid",), ("intenum", "U8", False)]
+FLAGS = ("intflag", "U8")
+
+
+def _first_len(c) -> Optional[int]:
+    vals = _dom(T(c), []) if _closed(T(c)) else []
+    return len(vals[0].enc[0]) if vals else None
+
+
+def unary(c, leaf: bool = False) -> List[tuple]:
+    out = [("optprefixed", c), ("ifpresent", c), ("coll", "U8", c), ("coll", 2, c), ("coll", None, c),
+           ("typedbytearray", "U8", c, False, False), ("typedbytearray", "U8", c, True, False), ("typedbytearray", "U8", c, False, True),
+           ("typedgreedy", c, False, False), ("typedgreedy", c, True, True),
+           ("typedterm", c, (0,), False, False), ("typedterm", c, (0,), True, False), ("typedterm", c, (10,), False, True)]
+    if leaf:
+        out += [("coll", "U16", c), ("typedbytearray", "U16", c, False, False), ("typedbytearray", "S8", c, False, False)]
+    n = _first_len(c)
+    if n is not None:
+        out += [("typedfixed", n, c, False), ("typedfixed", n, c, True)]
+    return out
+
+
+def nary(a, b, full: bool = True) -> List[tuple]:
+    out = [("tuple", (a, b)), ("template", (("x", a), ("y", b)), False),
+           ("enumswitch", "U8", ((0, a), (1, b))), ("flagswitch", "U8", ((1, a), (2, b))),
+           ("tuple", (U8, ("ctxswitch", (0, 0), ((0, a), (1, b)))))]
+    if full:
+        out += [("dataclass", (("x", a), ("y", b))),
+                ("template", (("k", U8), ("v", ("ctxswitch", (0, "k"), ((0, a), ("*", b))))), False),
+                ("template", (("flags", FLAGS), ("x", ("optflagged", "flags", FLAGS, 1, a)), ("y", ("optflagged", "flags", FLAGS, 2, b))), False),
+                ("template", (("flags", U8), ("x", ("optflagged", "flags", U8, 2, a)), ("y", ("optflagged", "flags", U8, 128, b))), True)]
+        n = _first_len(a)
+        if n is not None:
+            out.append(("lenswitch", ((n, a), (None, b))))
+    return out
+
+
+def families() -> List[tuple]:
+    """Depth-3 interaction families named by the property (and the dict/context adapters, which need a fixed inner shape)."""
+    out: List[tuple] = []
+    for k in KEYS:
+        for v in BASIS:
+            pair = ("coll", "U8", ("tuple", (k, v)))
+            out += [("dict", False, pair), ("dict", True, pair)]
+    ADS = ((0, ("a_bool",)), (1, ("a_expr",)), (2, ("a_enum",)), ("*", ("a_id",)))
+    out += [("tuple", (U8, ("ctxadapter", (0, 0), U8, ADS))),
+            ("template", (("k", U8), ("v", ("ctxadapter", (0, "k"), U8, ADS))), False),
+            ("template", (("k", U8), ("vs", ("coll", "U8", ("ctxadapter", (1, "k"), U8, ADS)))), False)]
+    for a in BASIS:
+        for b in BASIS2:
+            sw = ("ctxswitch", (1, "k"), ((0, a), (1, b)))
+            sw2 = ("ctxswitch", (1, "k"), ((0, a), ("*", b)))
+            dc = ("dataclass", (("x", a), ("y", b)))
+            pair = ("tuple", (a, b))
+            out.append(("template", (("k", U8), ("items", ("coll", "U8", sw))), False))      # switch reads a sibling of its collection
+            out.append(("template", (("k", U8), ("blob", ("typedbytearray", "U8", ("coll", None, sw2), False, False))), False))
+            out.append(("template", (("n", U8), ("items", ("coll", "U8", ("optprefixed", a))), ("tail", b)), False))  # optional/collection/template
+            out.append(("typedbytearray", "U8", ("coll", None, pair), False, False))           # greedy inside length-prefixed
+            out.append(("coll", "U8", ("typedbytearray", "U8", ("coll", None, a), True, False)))
+            out.append(("tuple", (b, ("coll", None, ("tuple", (U8, a))))))
+            out.append(("dataclass", (("a", U8), ("b", ("typedbytearray", "U8", dc, False, True)))))  # lazy typed bytes
+            out.append(("dataclass", (("n", U8), ("js", ("dict", True, ("coll", "U16", ("tuple", (CSTR, dc))))))))
+            out.append(("tuple", (U8, ("typedterm", pair, (10,), True, False))))
+            out.append(("tuple", (a, ("ifpresent", ("tuple", (U8, b))))))
+            out.append(("lenswitch", ((2, P("U16")), (4, ("coll", 2, P("U16"))), (None, pair))))
+    return out
+
+
+def enumerate_specs(depth: float = 1, with_families: bool = True) -> List[tuple]:
+    """Closed spec trees: depth 0 = every leaf; depth 1 = every unary wrapper over every leaf + every n-ary form over
+    BASIS x BASIS; depth 2 = every unary wrapper over the depth-1 trees built from BASIS children + tuple/template/
+    enum-switch/flag-switch/context-switch pairs of such a tree with a BASIS2 leaf (both orders); families() on top.
+    Trees whose derived domain is empty (ill-typed compositions, e.g. a greedy member that is not in tail position)
+    are *not* removed here -- callers drop them when ``domain()`` is empty."""
+    out: List[tuple] = list(LEAVES)
+    if depth >= 1:
+        for leaf in LEAVES:
+            out += unary(leaf, leaf=True)
+        for a in BASIS:
+            for b in BASIS:
+                out += nary(a, b)
+    if depth >= 1.5:  # 1.5 = only the unary wrappers over the basis-built depth-1 trees (quick tier of C08)
+        d1b: List[tuple] = []
+        for b in BASIS:
+            d1b += unary(b)
+        for a in BASIS:
+            for b in BASIS:
+                d1b += nary(a, b)
+        for t in d1b:
+            out += unary(t)
+            for b in (BASIS2 if depth >= 2 else ()):
+                out += nary(t, b, full=False) + nary(b, t, full=False)
+    if with_families:
+        out += families()
+    seen, uniq = set(), []
+    for d in out:
+        d = T(d)
+        if d not in seen:
+            seen.add(d)
+            uniq.append(d)
+    return uniq
